@@ -7,7 +7,7 @@ objects' public attributes (`accessory.aid/.services/.iid_manager`, `bridge.acce
 `to_HAP`, so nothing it returns can come from a cached representation.  It does not mutate
 anything: where a getter callback is installed it asks the callback (the harness installs
 side-effect-free scripted getters) and validates the result with the characteristic's own
-public `to_valid_value` (value validation is C09's subject, not C11's).
+public `to_valid_value` / `valid_value_or_raise` (value validation is C09's subject, not C11's).
 """
 from __future__ import annotations
 
@@ -43,7 +43,11 @@ def current_value(char) -> Any:
     getter = char.getter_callback
     if getter:
         try:
-            return char.to_valid_value(getter())
+            value = char.to_valid_value(getter())
+            # an answer that is not one of the declared valid values is a failed read, like a
+            # non-numeric answer (value validation is C09's subject; the public pure methods decide)
+            char.valid_value_or_raise(value)
+            return value
         except Exception as ex:  # noqa: BLE001 - any failure of the callback / validation
             raise Raises(type(ex).__name__) from None
     return char.value
